@@ -86,6 +86,8 @@ def replay(rep: dict) -> int:
     chk = Check("C16", "quick")
     e = rep["event"]
     name = e.get("cls", "BestBatchSampler")
+    if e.get("job"):
+        return c03.finish(chk, sh.run_jobs([e["job"]], procs=1), {"sample", "bestbatch", "select"}, "replay of the stored job")
     if name == "stub" or "bounds" not in e:
         results = [stub_events("quick", random.Random(1))]
     else:
